@@ -317,6 +317,19 @@ func cmdCheck(args []string) int {
 	if s := os.Getenv("RUXSYM_SOLVER"); s != "" {
 		opts.Solver = s
 	}
+	// thorough tier: every 25th obligation is re-answered by a second solver
+	if tier == "thorough" {
+		opts.Mirror, opts.MirrorEvery = "cvc5", 25
+	}
+	if m := os.Getenv("RUXSYM_MIRROR"); m != "" {
+		opts.Mirror = m
+		if opts.MirrorEvery == 0 {
+			opts.MirrorEvery = 25
+		}
+		if m == "none" {
+			opts.Mirror = ""
+		}
+	}
 	if n := 30/len(jobs) + 1; n > opts.WitnessPerJob {
 		opts.WitnessPerJob = n
 	}
@@ -538,7 +551,8 @@ func cmdCheck(args []string) int {
 	samples = append(samples, violSamples...)
 	solverMu.Lock()
 	solverInfo := map[string]any{"solver": opts.Solver, "queries": totQueries, "total_s": totSolverTime.Seconds(),
-		"max_query_s": maxSolverTime.Seconds(), "error_lines": totSolverErrors, "timeout_ms": opts.TimeoutMs}
+		"max_query_s": maxSolverTime.Seconds(), "error_lines": totSolverErrors, "timeout_ms": opts.TimeoutMs,
+		"second_solver": opts.Mirror, "obligations_rechecked_by_second_solver": totRechecked, "disagreements": totDisagreed}
 	solverMu.Unlock()
 	undisList := []string{}
 	for k, v := range undis {
